@@ -28,7 +28,7 @@ def generate(tier, rng):
     c = Corpus()
     # (a) fixed names over kinds x naming x prefix
     enums = namecorpus.build_enums(rng, tier, 'C17', ['Display'], ['names'], passes=1 if tier == 'quick' else 4,
-                                   prefixes=[None, 'pre_', 'é-', ''])
+                                   prefixes=[None, 'pre_', 'é-', ''], generics_pool=('', 'ty', '', 'lt', 'const', 'ty_nd'))
     # explicit fixed names incl. multi-byte / empty, one enum per kind
     for ki, kind in enumerate(namecorpus.KINDS):
         e = ESpec(id='c17f%d' % ki, name='EnC17f%d' % ki, derives=['Display'], feats=['names'], prefix=[None, 'p·'][ki % 2])
